@@ -411,7 +411,11 @@ func Generate(seed uint64, opt GenOptions) *Scenario {
 				return
 			}
 		}
-		sc.Docs = append(sc.Docs, DocSpec{JSON: js, Number: useNumber && g.chance(0.7)})
+		d := DocSpec{JSON: js, Number: useNumber && g.chance(0.7)}
+		if !d.Number && g.chance(0.2) {
+			d.Int64 = true
+		}
+		sc.Docs = append(sc.Docs, d)
 	}
 	for i, d := range poolDocs {
 		if (wildOK && !poolDocSafe[i]) || d.NoGen {
@@ -657,7 +661,7 @@ func TwinScenario(idx int, mode string) *Scenario {
 	other := poolPaths[(pr[0]+7)%len(poolPaths)].Text
 	sc := &Scenario{Version: 1, Property: "C19", Seed: uint64(idx), Mode: mode, Start: "2021-03-10T09:30:00Z",
 		Paths: []string{p.Text, other, poolParseOnly[idx%len(poolParseOnly)]},
-		Docs:  []DocSpec{{JSON: d.JSON, Number: variant%4 >= 2 && variant%2 == 1}},
+		Docs:  []DocSpec{{JSON: d.JSON, Number: variant%4 >= 2 && variant%2 == 1, Int64: variant%4 == 0 && idx%2 == 1}},
 		Vars:  []DocSpec{{JSON: poolVars[0], Native: variant%4 == 2}}, Note: fmt.Sprintf("twin family variant %d", variant%4)}
 	zones := []string{"America/New_York", "UTC", "+05:30", "", "America/Chicago", "Asia/Shanghai", "Asia/Kolkata", "Europe/Dublin"}
 	zone := zones[(idx+variant)%len(zones)]
